@@ -65,6 +65,11 @@ fn prog_cfg(which: Which, variant: u64) -> ProgCfg {
         c.threads = (2, 2);
         c.ops = (2, 4);
     }
+    if variant % 13 == 12 {
+        // a fresh level: the first add races with everything else
+        c.preload = (0, 0);
+        c.w = [40, 25, 20, 12, 3];
+    }
     if variant % 11 == 10 {
         // larger programs: 4 threads x up to 6 operations
         c.threads = (4, 4);
@@ -1697,6 +1702,28 @@ fn tiny_programs() -> Vec<Program> {
             }
         }
     }
+    // a fresh level: the add of X races with operations on X
+    for k in [model::Kind::Standard, model::Kind::Iceberg, model::Kind::Reserve] {
+        let x1 = if k == model::Kind::Standard { o(k, 1, 5, 0, &d) } else { o(k, 1, 3, 4, &p(2, Some(2), true)) };
+        for b in [
+            COp::Cancel(x),
+            COp::Amend { id: x, qty: 7 },
+            COp::Match { qty: 2, taker: model::oid(9001) },
+            COp::Match { qty: 9, taker: model::oid(9002) },
+            COp::Read(1),
+        ] {
+            out.push(Program {
+                price,
+                preload: vec![],
+                threads: vec![vec![COp::Add(x1)], vec![b]],
+            });
+        }
+        out.push(Program {
+            price,
+            preload: vec![],
+            threads: vec![vec![COp::Add(x1)], vec![COp::Cancel(x)], vec![COp::Match { qty: 4, taker: model::oid(9003) }]],
+        });
+    }
     // a few three-thread programs: matcher + canceller + amender on the same order
     for pre in preloads.iter().take(3) {
         out.push(Program {
@@ -1862,7 +1889,7 @@ pub fn bounded_sweep(which: Which, rep: &mut Report, bound: u32, max_programs: u
     rep.set(
         "exhaustive_scope",
         json!(format!(
-            "for {} of the {} small programs (138 tiny ones: 2 threads x 1 operation from {{match 2, match 9, cancel X, amend X->7, amend X->1, add, snapshot}} on 5 preloads, plus 3 three-thread programs; and a fixed pool of 96 generated 2 threads x 2 operations programs, with one preemption less) EVERY schedule with at most {} preemptions was executed; everything else is sampled",
+            "for {} of the {} small programs (156 tiny ones: 2 threads x 1 operation from {{match 2, match 9, cancel X, amend X->7, amend X->1, add, snapshot}} on 5 preloads, plus 3 three-thread programs; and a fixed pool of 96 generated 2 threads x 2 operations programs, with one preemption less) EVERY schedule with at most {} preemptions was executed; everything else is sampled",
             d.2,
             progs.len(),
             bound
